@@ -24,13 +24,14 @@ V3 = (0.0, 1.0, 2.0)
 _alg = {}
 
 
-def algorithm(name, bounds, N=3, ncosts=2):
-    key = (name, tuple(map(tuple, bounds)), N, ncosts)
+def algorithm(name, bounds, N=3, ncosts=2, precision=None):
+    key = (name, tuple(map(tuple, bounds)), N, ncosts, precision)
     if key not in _alg:
         from .c_support import make_problem
         from artap import algorithm_swarm as sw
         shim_mod.install()
-        problem = make_problem(n_params=len(bounds), bounds=bounds, criteria=["minimize"] * ncosts)
+        problem = make_problem(n_params=len(bounds), bounds=bounds, criteria=["minimize"] * ncosts,
+                               param_extra=[{"precision": precision}] * len(bounds) if precision else None)
         cls = {"base": sw.SwarmAlgorithm, "OMOPSO": sw.OMOPSO, "SMPSO": sw.SMPSO, "PSOGA": sw.PSOGA}[name]
         a = cls(problem)
         a.options['max_population_size'] = N
@@ -72,9 +73,9 @@ def xs_vs(box):
     return xs, vs
 
 
-def check_position(name, box, x, v):
+def check_position(name, box, x, v, precision=None):
     from artap.individual import Individual
-    a = algorithm(name, [box])
+    a = algorithm(name, [box], precision=precision)
     lb, ub = box
     ind = Individual([x])
     ind.features['velocity'] = [v]
@@ -205,6 +206,18 @@ def run_body_factory(name, N, G, seed, objective="std"):
                                           prepare=prepare, shim_cfg={"extreme_values": True},
                                           f=tradeoff if objective == "tradeoff" else None)
         desc = "%s N=%d G=%d objective=%s" % (name, N, G, objective)
+        # state invariant after the run, whichever route the algorithm took to maintain the personal bests: no recorded
+        # particle's own evaluated position dominates the personal best recorded for it (it would have replaced it)
+        if exc is None:
+            for ind in problem.individuals:
+                b = ind.features.get('best_cost')
+                if b is None or not ind.costs_signed or len(b) != len(ind.costs_signed):
+                    continue
+                if ref_dominance(tuple(ind.costs_signed), tuple(b)) == 1:
+                    viol.append(("C18:run:position-dominates-recorded-pbest:%s" % name,
+                                 "a particle at %r with costs %r carries the personal best %r, which its own position dominates" % (
+                                     list(ind.vector), list(ind.costs_signed), list(b))))
+                    break
         out = [(k, m + "; " + desc) for k, m in viol[:3]]
         if exc is not None:
             out.append(("C18:run:%s:exception:%s" % (name, type(exc).__name__), "%s raised %r" % (desc, exc)))
@@ -238,6 +251,13 @@ def _shard(shard, col: Collector):
                 for x in xs:
                     for v in vs:
                         rec("position", {"name": name, "box": box, "x": x, "v": v}, check_position(name, list(box), x, v), v != 0.0)
+        # parameters that declare a precision (bounds off that grid): the rule is about the bounds, whatever the precision
+        for name in ("OMOPSO", "SMPSO", "PSOGA"):
+            for box, prec in (((0.25, 1.75), 0.5), ((0.0, 1.0), 0.3), ((-0.37, 0.41), 0.1), ((1.0, 2.0), 1e-3), ((0.35, 2.45), 0.7)):
+                xs, vs = xs_vs(box)
+                for x in xs:
+                    for v in vs:
+                        rec("position", {"name": name, "box": box, "x": x, "v": v, "precision": prec}, check_position(name, list(box), x, v, prec), v != 0.0)
         for box in BOXES:
             xs, vs = xs_vs(box)
             for v in vs + [vs[3] * (1 + 2.0 ** -52), -vs[3] * (1 + 2.0 ** -52)]:
@@ -273,7 +293,7 @@ def replay(sub, case):
     if sub == "pbest":
         return check_pbest(case["name"], tuple(case["new"]), tuple(case["best"]))
     if sub == "position":
-        return check_position(case["name"], list(case["box"]), case["x"], case["v"])
+        return check_position(case["name"], list(case["box"]), case["x"], case["v"], case.get("precision"))
     if sub == "constriction":
         return check_constriction(list(case["box"]), case["v"])
     if sub == "velocity":
